@@ -428,13 +428,16 @@ MANIFEST_TEXT = {
                    "not proved); the byte-to-token simulation is not proved (tied by K); float/fixed operator arithmetic is the library's.",
         technique="Coq proof (invariant over the parser's state machine; token-level refinement) on a hand-written Gallina model + differential correspondence check"),
     "C04": dict(
-        level_text="Proof: decimal printing/parsing of every integer below 10^45 are inverse (the FormatInt/ParseInt, big.Int String/SetString "
-                   "core of String and FromString), Comma only adds separators (removing commas gives the digits back, any length), Unquote "
-                   "undoes quoting -- Coq theorems over the byte-level model. The end-to-end statements (FromString(String v) = v for every v and "
-                   "configuration, canonical form, literal truncation, no panic, CheckedAs to floats) are decided per run: byte-exact "
-                   "correspondence of the model with the real functions and an exact-rational oracle on the implementation's own outputs.",
-        level_note="Trusted: Coq kernel, extraction, drivers, harness; the full round-trip theorem is not yet proved (see DESIGN.md); the exponent "
-                   "detour and the float formatting of the standard library are not modelled.",
+        level_text="Proof: for every configuration (1..16 places) and every value of f64.Int (int64 with wrap-around) and f128.Int (big.Int "
+                   "parsing, saturation), FromString applied to String(), StringWithSign(), Comma(), CommaWithSign() and the quoted JSON text "
+                   "returns exactly the value; Comma only adds separators to String(); decimal printing/parsing of every integer below 10^45 "
+                   "are inverse; Unquote undoes quoting -- Coq theorems over the byte-level model of String/FromString/CommaFromStringNum/Unquote. "
+                   "Literal truncation of arbitrary decimal literals, no panic on arbitrary bytes, and CheckedAs to floats are decided per "
+                   "run: byte-exact correspondence of the model with the real functions and an exact-rational oracle on the implementation's "
+                   "own outputs.",
+        level_note="Trusted: Coq kernel, extraction, drivers, harness; model hand-written and tied by correspondence; the truncation of "
+                   "arbitrary literals is not a theorem (checked per run); the exponent detour and the float formatting of the standard "
+                   "library are not modelled.",
         technique="Coq proof (digit-list induction) on a hand-written Gallina model + differential correspondence check with exact-rational oracle"),
     "C03": dict(
         level_text="Proof (f64): Add/Sub exact; Mul and Div = exact result truncated toward zero; Mod = a - b*trunc(a/b); Trunc toward zero, "
